@@ -21,6 +21,8 @@ class P(vlib.Prop):
     harnesses = [
         vlib.Harness("shutdown", "exporter", "./exporterhelper/internal/",
                      {"zz_verif_c03_test.go": "C03/shutdown_test.go"}, "^TestVerifC03$", "internal", timeout=240),
+        vlib.Harness("refcount", "exporter", "./exporterhelper/internal/queuebatch/",
+                     {"zz_verif_c03_test.go": "C03/refcount_test.go"}, "^TestVerifC03RefCount$", "queuebatch", timeout=240),
     ]
     rule = ("gated schedules (720 quick / 14 400 thorough): a REAL BaseExporter (queue sender + batcher + retry + obs-report "
             "senders) with configuration drawn from {memory, persistent} x {no batch, sending_queue::batch, legacy WithBatcher} "
